@@ -15,7 +15,7 @@ META = dict(
 
 def tasks(tier):
     from vf.core import Task
-    return [Task('props.wire:run', name='C17/wire.c17_point_pos.Npos1', fname='c17_point_pos', kwargs=dict(Npos=1), timeout=300), Task('props.wire:run', name='C17/wire.c17_point_pos.Npos2', fname='c17_point_pos', kwargs=dict(Npos=2), timeout=300), Task('props.wire:run', name='C17/wire.integrate_1d', fname='c17_integrate_1d', timeout=300), Task('props.wire:run', name='C17/wire.integrate_2d.asymmetric', fname='c17_integrate_2d', kwargs=dict(symmetric=False), timeout=300), Task('props.wire:run', name='C17/wire.integrate_2d.symmetric', fname='c17_integrate_2d', kwargs=dict(symmetric=True), timeout=300), Task('props.C17:t_pdf', name='C17/pdfs.biv_lognormal', timeout=600)] + bounded_tasks('C17', tier)
+    return [Task('props.wire:run', name='C17/wire.c17_point_pos.Npos1', fname='c17_point_pos', kwargs=dict(Npos=1), timeout=300), Task('props.wire:run', name='C17/wire.c17_point_pos.Npos2', fname='c17_point_pos', kwargs=dict(Npos=2), timeout=300), Task('props.wire:run', name='C17/wire.integrate_1d', fname='c17_integrate_1d', timeout=300), Task('props.wire:run', name='C17/wire.integrate_2d.asymmetric', fname='c17_integrate_2d', kwargs=dict(symmetric=False), timeout=300), Task('props.wire:run', name='C17/wire.integrate_2d.symmetric', fname='c17_integrate_2d', kwargs=dict(symmetric=True), timeout=300), Task('props.wire:run', name='C17/wire.vourlaki_mixture', fname='c17_vourlaki_mixture', timeout=300), Task('props.C17:t_pdf', name='C17/pdfs.biv_lognormal', timeout=600)] + bounded_tasks('C17', tier)
 
 
 MANIFEST_ENTRY = dict(
